@@ -184,6 +184,10 @@ def gen_tasks(profile, count, seed, opcode_frac=0.15, nmax=8):
             w = rng.randint(1, 4)
             kw["W"] = w
             strat["spawn_fail"] = [rng.randrange(w)]
+            # calls that take a while (several scheduling points inside): a worker can be in the middle of one when
+            # a later Thread.start fails
+            srng = random.Random(f"slow-{seed}-{i}")
+            scn = dict(scn, slow={str(c): srng.choice([0, 2, 6]) for c in S.call_ids(scn)})
         opcode = rng.random() < opcode_frac
         tasks.append(_mk(scn, rng, strat=strat, seed=seed * 100003 + i, opcode=opcode, **kw))
     return tasks
@@ -222,7 +226,7 @@ def enum_preempt_tasks(task, base_rec, limit=None):
     for s in idx:
         for tid in range(nthreads):
             t = dict(task)
-            t["strat"] = {"kind": "preempt", "preempts": [[s, tid]], "yic": bool(task.get("yic"))}
+            t["strat"] = {"kind": "preempt", "preempts": [[s, tid]], "yic": bool(task.get("yic")), **task.get("strat_extra", {})}
             out.append(t)
     return out
 
@@ -246,6 +250,7 @@ def _exec_enum(task):
     """Baseline + all single preemptions (bounded-preemption enumeration, b = 1)."""
     base = dict(task)
     base["strat"] = {"kind": "preempt", "preempts": [], "yic": True} if task.get("yic") else {"kind": "nonpreemptive"}
+    base["strat"].update(task.get("strat_extra", {}))
     first = _exec_one(base)
     if first.get("_poisoned"):
         return {"multi": [(base, first)], "_poisoned": True}
@@ -427,6 +432,24 @@ def join_enum_tasks(seed, count=4, limit=None):
         t["yic"] = True
         if limit:
             t["enum_limit"] = limit
+        tasks.append(t)
+    return tasks
+
+
+def spawnfail_enum_tasks(seed, count=4):
+    """Bounded-preemption enumeration (b = 1) of runs in which the j-th Thread.start fails (j >= 1, so that earlier
+    workers exist), on small plans whose calls take a while: every placement of one switch, in particular 'a worker
+    is in the middle of a call when the calling thread hits the failing start and cleans up'."""
+    rng = random.Random(f"spawnenum-{seed}")
+    tasks = []
+    for i in range(count):
+        scn = S.random_scenario(rng, 2, 4, p_lit=0.0, p_edge=rng.choice([0.0, 0.3]))
+        scn = dict(scn, slow={str(c): 2 for c in S.call_ids(scn)})
+        w = rng.choice([2, 3])
+        t = _mk(scn, rng, W=w, sched=rng.choice(["default", "random"]), strat={"kind": "nonpreemptive"}, seed=seed * 37 + i)
+        t["mode"] = "enum1"
+        t["yic"] = True
+        t["strat_extra"] = {"spawn_fail": [rng.randrange(1, w)]}
         tasks.append(t)
     return tasks
 
